@@ -24,6 +24,7 @@ import (
 var damageKinds = []string{
 	"del-bucket", "del-S", "S-garbage", "S-trunc", "S-empty", "del-I", "I-0", "I-1", "I-2", "I-3", "I-5", "I-8",
 	"V-garbage", "V-trunc", "V-empty", "X-unknown-key", "X-short-V-key", "X-long-V-key",
+	"V-del", // one bitmap key removed: the schema names a value that has no bitmap (not listed by the statement: no panic, no hang, lock released whatever the outcome)
 }
 
 var specialFiles = []string{"empty-bbolt", "zero-byte", "garbage", "directory", "nonexistent", "open-error"}
@@ -191,6 +192,10 @@ func applyDamage(path string, kinds []string) (applied []string, err error) {
 			case "V-empty":
 				if key := firstV(); key != nil {
 					err, did = b.Put(key, []byte{}), true
+				}
+			case "V-del":
+				if key := firstV(); key != nil {
+					err, did = b.Delete(key), true
 				}
 			case "X-unknown-key":
 				err, did = b.Put([]byte("Zunknown"), []byte("x")), true
